@@ -23,7 +23,7 @@ RULE = (
     "(speed <= 1) still writes in the last third of the run; frames whose predecessor ran at millis() > 0 are >= speed_ms apart. (host) histories of animate / "
     "tick(now) / tick() with non-decreasing positive timestamps arriving early, on time and late: tick never raises, rows keep length cols, only animated rows "
     "change, non-looping states become inactive within bound steps, looping ones stay active, consecutive steps are >= speed_ms apart once last_tick > 0. "
-    "Non-trivial = text longer than the row, or speed_ms > 0 with an early tick, or two animations. distinct = distinct sketch+tape / history."
+    "A third of the host histories also create and tick a second LCD object in the same process (its operations must not touch the first one's animations or rows). Non-trivial = text longer than the row, or speed_ms > 0 with an early tick, or two animations. distinct = distinct sketch+tape / history."
 )
 ASSUMPTIONS = ["liveness is checked as bounded termination with the linear bound 2*(len(text)+cols)+4 steps", "animations started inside the main-loop body are an open finding (never advanced) and are excluded by construction"]
 
@@ -190,8 +190,18 @@ def host_case(draw):
         ops.append({"op": "animate", "style": draw(st.sampled_from(STYLES + ["SCROLL", "Blink"])), "row": draw(st.integers(0, rows - 1)),
                     "text": draw(st.text(alphabet="abcxyz019 ", min_size=n, max_size=n)), "speed": draw(st.sampled_from(SPEEDS + [-5, 3])), "loop": draw(st.booleans())})
     nticks = draw(st.integers(5, 60))
+    second = draw(st.integers(0, 2)) == 0   # a second, smaller display lives in the same process: the two must not know of each other
+    have_other = False
     for _ in range(nticks):
         k = draw(st.integers(0, 12))
+        if second and k in (2, 3):
+            if not have_other:
+                ops.append({"op": "other_new", "cols": draw(st.sampled_from([1, 5, 16])), "rows": draw(st.integers(1, 2)), "anim": draw(st.sampled_from([None, "scroll", "blink"]))})
+                have_other = True
+            else:
+                now += draw(st.sampled_from([0, 1, 50, 1000]))
+                ops.append({"op": "other_tick", "now": now})
+            continue
         if k == 0 and len([o for o in ops if o["op"] == "animate"]) < 4:
             n = draw(st.integers(0, cols + 4))
             ops.append({"op": "animate", "style": draw(st.sampled_from(STYLES)), "row": draw(st.integers(0, rows - 1)), "text": draw(st.text(alphabet="abcxyz", min_size=n, max_size=n)),
@@ -219,8 +229,27 @@ def eval_host(case):
     sigs = {}
     counts = {}
     anim_rows = set()
+    other = None
     for i, op in enumerate(case["ops"]):
         before = list(lcd.buffer)
+        if op["op"] in ("other_new", "other_tick"):
+            keys_before = {k: (v.active, v.offset, v.visible, v.show, v.cycles) for k, v in lcd.animations.items()}
+            try:
+                if op["op"] == "other_new":
+                    other = LCD(i2c_addr=0x3F, cols=op["cols"], rows=op["rows"])
+                    other.begin() if hasattr(other, "begin") else None
+                    if op["anim"]:
+                        other.animate(op["anim"], 0, "zz", speed_ms=0, loop=True)
+                elif other is not None:
+                    other.tick(op["now"])
+            except Exception as e:
+                return "FAIL", [mk("host-tick-raises", "a second display never raises either", f"op {i} {op}: {e!r}")]
+            keys_after = {k: (v.active, v.offset, v.visible, v.show, v.cycles) for k, v in lcd.animations.items()}
+            if keys_after != keys_before or list(lcd.buffer) != before:
+                return "FAIL", [mk("host-displays-share-state", "an operation on another LCD object leaves this one's animations and rows alone", f"op {i} {op}: {len(keys_before)} -> {len(keys_after)} animations")]
+            if other is not None and (len(other.buffer) != op.get("rows", len(other.buffer)) or any(len(r) != other.cols for r in other.buffer)):
+                return "FAIL", [mk("host-row-length", "second display keeps its geometry", [len(r) for r in other.buffer])]
+            continue
         try:
             if op["op"] == "animate":
                 lcd.animate(op["style"], op["row"], op["text"], speed_ms=op["speed"], loop=op["loop"])
